@@ -111,6 +111,97 @@ example : ∃ kvs k, parseNumKw kvs = some k ∧ Json.lookup "type" kvs = some (
   ⟨[("type", .str "integer"), ("minimum", .num (-1) 0), ("maximum", .num 4 0), ("multipleOf", .num 2 0)],
    ⟨some (-1), some 4, none, none, some 2⟩, by rfl, by rfl, by intro x h; cases h; decide, by decide, by decide⟩
 
+/-! ## cover_schema_iter -/
+
+/-- A positive-only context yields only values labelled positive — every schema, every oracle, the whole recursion
+    (anyOf / oneOf / allOf descents, nested properties and items). -/
+theorem cover_positive_only (fuel : Nat) (vs : Vs) (ctx : Ctx) (schema : Json) (st : St) (h : ctx.neg = false) :
+    ∀ gv ∈ (coverTop fuel vs ctx schema st).out, gv.mode = .positive := by
+  intro gv hg
+  exact sound_freshSeen (cover_positive_only_aux fuel vs ctx schema h) st (fun _ _ => trivial) gv hg
+
+/-- A negative-only context yields only values labelled negative. -/
+theorem cover_negative_only (fuel : Nat) (vs : Vs) (ctx : Ctx) (schema : Json) (st : St) (h : ctx.pos = false) :
+    ∀ gv ∈ (coverTop fuel vs ctx schema st).out, gv.mode = .negative := by
+  intro gv hg
+  exact sound_freshSeen (cover_negative_only_aux fuel vs ctx schema h) st (fun _ _ => trivial) gv hg
+
+/-- C03 for the numeric keyword family, end to end (repaired generator): for every satisfiable plain integer/number
+    schema (numeric keywords of either exclusive form, multipleOf > 0, any annotation keywords), every generation-mode
+    set, every location and every oracle that honours its contract (`oracleOk`: schema requests answered with valid
+    instances, `_negative_type` draws of the announced JSON type), every value cover_schema_iter emits carries the
+    right label: positives conform, negatives are rejected (copied examples/defaults exempt). -/
+theorem cover_numeric_labels (fuel n : Nat) (env : Env) (hoas : env.oas = Oas.none) (ctx : Ctx)
+    (kvs : List (String × Json)) (k : NumKw) (hp : PlainNumeric kvs)
+    (hparse : parseNumKw kvs = some k) (hpos : ∀ x, k.multipleOf = some x → 0 < x)
+    (hsat : ∃ n0 : Int, validF (fuel + 3) env (.obj kvs) (.num n0 0) = true) :
+    Sound (fun gv => labelOk (fuel + 3) env (.obj kvs) gv = true) (oracleOk (fuel + 3) env)
+      (coverTop (n + 1) ⟨.repaired, .repaired⟩ ctx (.obj kvs)) :=
+  cover_numeric_sound fuel n env hoas ctx kvs k hp hparse hpos hsat
+
+/-- The bound arms violate the keyword their description blames, whatever else the schema says:
+    `maximum + 1`, `minimum - 1`, and the numeric exclusive bound itself. -/
+theorem numeric_negatives_as_described (env : Env) (kvs : List (String × Json)) (path : List String) :
+    (∀ n : Int, Json.lookup "maximum" kvs = some (.num n 0) →
+        violatesAsDescribed env kvs (GV.neg (.num (n + 1) 0) .greaterThanMaximum path) = true) ∧
+    (∀ n : Int, Json.lookup "minimum" kvs = some (.num n 0) →
+        violatesAsDescribed env kvs (GV.neg (.num (n - 1) 0) .smallerThanMinimum path) = true) ∧
+    (∀ (m : Int) (e : Nat), Json.lookup "exclusiveMaximum" kvs = some (.num m e) →
+        violatesAsDescribed env kvs (GV.neg (.num m e) .greaterThanMaximum path) = true) ∧
+    (∀ (m : Int) (e : Nat), Json.lookup "exclusiveMinimum" kvs = some (.num m e) →
+        violatesAsDescribed env kvs (GV.neg (.num m e) .smallerThanMinimum path) = true) := by
+  refine ⟨?_, ?_, ?_, ?_⟩
+  · intro n h
+    have : maximumOk kvs (n + 1) 0 = false := by
+      unfold maximumOk; simp only [h]
+      have h1 : numLe (n + 1) 0 n 0 = false := by simp [numLe, pow10]; omega
+      have h2 : numLt (n + 1) 0 n 0 = false := by simp [numLt, pow10]; omega
+      split <;> simp [h1, h2]
+    simp [violatesAsDescribed, GV.neg, this]
+  · intro n h
+    have : minimumOk kvs (n - 1) 0 = false := by
+      unfold minimumOk; simp only [h]
+      have h1 : numLe n 0 (n - 1) 0 = false := by simp [numLe, pow10]; omega
+      have h2 : numLt n 0 (n - 1) 0 = false := by simp [numLt, pow10]; omega
+      split <;> simp [h1, h2]
+    simp [violatesAsDescribed, GV.neg, this]
+  · intro m e h
+    have : maximumOk kvs m e = false := by unfold maximumOk; simp [h, numLt_irrefl]
+    simp [violatesAsDescribed, GV.neg, this]
+  · intro m e h
+    have : minimumOk kvs m e = false := by unfold minimumOk; simp [h, numLt_irrefl]
+    simp [violatesAsDescribed, GV.neg, this]
+
+/-- F7b witness: untyped `{maximum: 5, exclusiveMaximum: true}` — the snapshot emits the Python `True` as
+    "Value greater than maximum"; the schema accepts it; it does not violate `maximum`. The repair emits no such value. -/
+def kvsF7b : List (String × Json) := [("maximum", .num 5 0), ("exclusiveMaximum", .bool true)]
+private def ctxN : Ctx := ⟨"body", false, true, []⟩
+theorem F7b_boolean_emitted_witness :
+    ((coverTop 3 ⟨.asFound, .asFound⟩ ctxN (.obj kvsF7b) { orc := [], seen := [] }).out.any fun gv =>
+        gv.value == Json.bool true && gv.mode == .negative && validF 2 {} (.obj kvsF7b) gv.value &&
+        !(violatesAsDescribed {} kvsF7b gv)) = true ∧
+    ((coverTop 3 ⟨.repaired, .repaired⟩ ctxN (.obj kvsF7b) { orc := [], seen := [] }).out.all fun gv =>
+        labelOk 2 {} (.obj kvsF7b) gv && violatesAsDescribed {} kvsF7b gv) = true := by
+  decide
+
+/-- non-vacuity of `cover_numeric_labels`: `{type: integer, minimum: 0, maximum: 3}` is a plain numeric schema, is
+    satisfiable, and with six type draws the generator emits 4 positive and 8 negative values -/
+def kvsOk : List (String × Json) := [("type", .str "integer"), ("minimum", .num 0 0), ("maximum", .num 3 0)]
+private def orcOk : List Ans :=
+  [.val (.num 5 1), .val (.bool false), .val .null, .val (.str ""), .val (.arr [.null, .null]), .val (.obj [])]
+example : PlainNumeric kvsOk ∧ parseNumKw kvsOk = some ⟨some 0, some 3, none, none, none⟩ ∧
+    validF 3 {} (.obj kvsOk) (.num 0 0) = true ∧
+    ((coverTop 2 ⟨.repaired, .repaired⟩ ⟨"body", true, true, []⟩ (.obj kvsOk) { orc := orcOk, seen := [] }).out.map
+      (·.mode)) = [.positive, .positive, .positive, .positive, .negative, .negative, .negative, .negative, .negative,
+                   .negative, .negative, .negative] := by
+  refine ⟨⟨?_, ⟨"integer", rfl, Or.inl rfl⟩, ?_, ⟨rfl, rfl, rfl, rfl, rfl, rfl, rfl, rfl⟩⟩, rfl, by decide, by decide⟩
+  · intro k v h
+    simp only [kvsOk, List.mem_cons, Prod.mk.injEq, List.mem_nil_iff, or_false] at h
+    rcases h with ⟨rfl, rfl⟩ | ⟨rfl, rfl⟩ | ⟨rfl, rfl⟩ <;> rfl
+  · intro k v h
+    simp only [kvsOk, List.mem_cons, Prod.mk.injEq, List.mem_nil_iff, or_false] at h
+    rcases h with ⟨rfl, rfl⟩ | ⟨rfl, rfl⟩ | ⟨rfl, rfl⟩ <;> simp
+
 /-! ## cases: `_iter_coverage_cases` -/
 
 /-- Full statement (C03_case_label + C03_components_consistent): whatever values cover_schema_iter handed over,
